@@ -37,8 +37,9 @@ Proof. intros H. cbn. apply sqrt_sqrt. lra. Qed.
 Lemma Rops_sqrt_pos x : 0 < x -> 0 < nsqrt Rops x.
 Proof. intros H. cbn. apply sqrt_lt_R0. exact H. Qed.
 
-Lemma Rops_run_1x1 : cholesky Rops [[4]] = Some [[sqrt (4 - 0)]].
+Definition ex_1x1 : list (list R) := [[4]].
+Lemma Rops_run_1x1 : cholesky Rops ex_1x1 = Some [[sqrt (4 - 0)]].
 Proof.
-  unfold cholesky, is_square, mrows, mcols. cbn [length hd Nat.eqb negb chol_rows chol_row app].
+  unfold ex_1x1, cholesky, is_square, mrows, mcols. cbn [length hd Nat.eqb negb chol_rows chol_row app].
   cbn. destruct (Rle_dec (4 - 0) 0); [lra|]. reflexivity.
 Qed.
